@@ -21,6 +21,7 @@ RULE = ('(A) sequences of push / insert / index assignment / compound index assi
         'container of >= 9998 elements; distinct = distinct (source, host container sizes).')
 RULE += ' Element-adding operations with an invalid index (text, None, NaN, infinity, a container) on full containers; lookups (get, in, index_of) on a full host defaultdict.'
 RULE += " Coverage-guided programs: one atheris/libFuzzer process per worker (6 s quick, 120 s thorough) runs this check's own judgement on generated program texts over the instrumented sandbox copy; programs on which an unlisted violation was recorded there are judged again by the worker."
+RULE += " One program in five runs against the function table as the repository built it (monitor wrappers taken out for those eval calls, the node monitor stays on): code that recognises its own builtins by identity takes other paths under wrappers."
 ASSUMPTIONS = ['B = max(10000, longest host-supplied list/dict/string, length of the source text (upper bound for any literal))',
                'element-adding = push, insert, index assignment, compound index assignment; on a container with len >= 10000 at entry they must raise ParserError and leave '
                'the container (length and element identities) unchanged; an overwrite of an existing slot that succeeded without growth would not be flagged, growth always is',
